@@ -55,7 +55,7 @@ def run(tier):
     ck.coverage["unhandled_heads_seen"] = dict(sorted(classes.items()))
     return ck.finish("error-report programs (failing statement x call chain of depth 0-5 over fn / method / static / "
                      "lambda / module function frames x optional fiber x caught or uncaught) and compile-error programs "
-                     "(one bad token on a known line), compared with the model on kind, every message and every trace "
+                     "(one bad token on a known line), reports of errors that travelled through finally blocks in recursive code and in interleaved fibers, compared with the model on kind, every message and every trace "
                      "line; non-trivial = distinct program ending in an uncaught or compile error")
 
 
